@@ -305,6 +305,10 @@ func registerIntrinsics(e *Engine) {
 	in["internal/abi.NoEscape"] = func(p *Path, _ *frame, _ *ssa.Function, a []value) (value, bool) { return a[0], true }
 	in["internal/abi.Escape"] = func(p *Path, _ *frame, _ *ssa.Function, a []value) (value, bool) { return a[0], true }
 
+	ident := func(p *Path, _ *frame, _ *ssa.Function, a []value) (value, bool) { return a[0], true }
+	in["internal/stringslite.Clone"] = ident
+	in["strings.Clone"] = ident
+
 	// ---- unicode ----
 	registerUnicode(in)
 
@@ -621,6 +625,17 @@ func (p *Path) toGoTyped(t types.Type, v value) (interface{}, bool) {
 func registerVerifPrims(in map[string]intrinsic, pkg string) {
 	nondet := func(kind string, s Sort, fp bool) intrinsic {
 		return func(p *Path, _ *frame, _ *ssa.Function, a []value) (value, bool) {
+			if cv, ok := p.nextConcrete(); ok {
+				c := Const(BV(s.W), cv)
+				if s.K == KBool {
+					c = Bool(cv&1 != 0)
+				}
+				p.nondets = append(p.nondets, NondetRec{Kind: kind, T: c})
+				if fp {
+					return p.tc.apply(OBitsToFP, s, 0, c), true
+				}
+				return c, true
+			}
 			v := p.tc.Var(BV(s.W), fmt.Sprintf("%s_%d", kind, len(p.nondets)))
 			if s.K == KBool {
 				v = p.tc.Var(SBool, fmt.Sprintf("%s_%d", kind, len(p.nondets)))
@@ -649,6 +664,11 @@ func registerVerifPrims(in map[string]intrinsic, pkg string) {
 		n := int(p.asInt(a[0], "nondet string length"))
 		b := make([]*Term, n)
 		for i := range b {
+			if cv, ok := p.nextConcrete(); ok {
+				b[i] = byteConst(byte(cv))
+				p.nondets = append(p.nondets, NondetRec{Kind: "u8", T: b[i]})
+				continue
+			}
 			v := p.tc.Var(BV(8), fmt.Sprintf("sb_%d", len(p.nondets)))
 			p.nondets = append(p.nondets, NondetRec{Kind: "u8", T: v})
 			b[i] = v
@@ -659,6 +679,11 @@ func registerVerifPrims(in map[string]intrinsic, pkg string) {
 		n := int(p.asInt(a[0], "nondet bytes length"))
 		b := make([]value, n)
 		for i := range b {
+			if cv, ok := p.nextConcrete(); ok {
+				b[i] = byteConst(byte(cv))
+				p.nondets = append(p.nondets, NondetRec{Kind: "u8", T: byteConst(byte(cv))})
+				continue
+			}
 			v := p.tc.Var(BV(8), fmt.Sprintf("bb_%d", len(p.nondets)))
 			p.nondets = append(p.nondets, NondetRec{Kind: "u8", T: v})
 			b[i] = v
@@ -667,6 +692,10 @@ func registerVerifPrims(in map[string]intrinsic, pkg string) {
 	}
 	in[pkg+".verifChoose"] = func(p *Path, _ *frame, _ *ssa.Function, a []value) (value, bool) {
 		n := p.asInt(a[0], "verifChoose bound")
+		if cv, ok := p.nextConcrete(); ok {
+			p.nondets = append(p.nondets, NondetRec{Kind: "int", T: Const(BV(64), cv)})
+			return ConstInt(64, int64(cv)), true
+		}
 		v := p.tc.Var(BV(64), fmt.Sprintf("choose_%d", len(p.nondets)))
 		p.nondets = append(p.nondets, NondetRec{Kind: "int", T: v})
 		p.addPC(p.tc.Bin(OULt, v, Const(BV(64), uint64(n))))
@@ -751,6 +780,23 @@ func registerVerifPrims(in map[string]intrinsic, pkg string) {
 			return ConstInt(64, int64(v)), true
 		}
 		return ConstInt(64, def), true
+	}
+	in[pkg+".verifIsNil"] = func(p *Path, _ *frame, _ *ssa.Function, a []value) (value, bool) {
+		i := a[0].(iface)
+		if i.t == nil {
+			return tTrue, true
+		}
+		switch x := i.v.(type) {
+		case *value:
+			return Bool(x == nil), true
+		case []value:
+			return Bool(x == nil), true
+		case *Map:
+			return Bool(x == nil), true
+		case *ssa.Function:
+			return Bool(x == nil), true
+		}
+		return tFalse, true
 	}
 	in[pkg+".verifLog"] = func(p *Path, _ *frame, _ *ssa.Function, a []value) (value, bool) { return nil, true }
 	in[pkg+".verifIsSymbolic"] = func(p *Path, _ *frame, _ *ssa.Function, a []value) (value, bool) { return tTrue, true }
@@ -916,7 +962,7 @@ func registerRegexp(in map[string]intrinsic) {
 				if p.branch(b) {
 					return tuple{&native{(*regexp.Regexp)(nil)}, iface{}}, true
 				}
-				return tuple{(*native)(nil), goErr(p, "regexp: compile error")}, true
+				return tuple{(*native)(nil), goErr(p, "error parsing regexp: <stub>: `<pattern>`")}, true
 			}
 			re, err := regexp.Compile(pat)
 			if must {
@@ -1054,3 +1100,15 @@ func intSlices(x [][]int) value {
 }
 
 var _ = strings.Contains
+
+// nextConcrete: in concrete mode (cfg.Vector set) nondets read the vector.
+func (p *Path) nextConcrete() (uint64, bool) {
+	if p.eng.cfg.Vector == nil {
+		return 0, false
+	}
+	i := len(p.nondets)
+	if i < len(p.eng.cfg.Vector) {
+		return p.eng.cfg.Vector[i], true
+	}
+	return 0, true
+}
